@@ -17,6 +17,19 @@ class Outcome:
             return 'response(%d frames%s)' % (len(self.frames), ', error' if self.error else '')
         return self.kind
 
+class _Holder: pass
+_H = _Holder()
+def flat(items):
+    """byte view of string elements (multi-byte scalar elements are expanded to their UTF-8 bytes)"""
+    from models_core import wchar_bytes
+    out = []
+    for x in items:
+        if isinstance(x, WChar):
+            out.extend(wchar_bytes(_H, x))
+        else:
+            out.append(x)
+    return out
+
 def norm_response(r):
     frames = []
     for f in r.field('frames').v:
@@ -24,7 +37,7 @@ def norm_response(r):
         for e in f.field('fields').fields[0].v:
             if e.variant == 'Some':
                 k, v = e.fields[0].items
-                fields.append((list(as_items(k)), list(as_items(v))))
+                fields.append((flat(as_items(k)), flat(as_items(v))))
         b = f.field('binary')
         frames.append((fields, list(b.fields[0].b) if b.variant == 'Some' else None))
     e = r.field('error')
@@ -32,7 +45,7 @@ def norm_response(r):
     if e.variant == 'Some':
         x = e.fields[0]
         cc = x.field('current_command')
-        error = (x.field('code'), x.field('command_index'), list(as_items(cc.fields[0])) if cc.variant == 'Some' else None, list(as_items(x.field('message'))))
+        error = (x.field('code'), x.field('command_index'), flat(as_items(cc.fields[0])) if cc.variant == 'Some' else None, flat(as_items(x.field('message'))))
     return frames, error
 
 def classify(r):
@@ -93,7 +106,8 @@ def async_session(I, t, max_receives, between=None):
 
 def version_of(I, conn, is_async):
     path = 'mpd_protocol::connection::%s::<%s>::protocol_version' % ('AsyncConnection' if is_async else 'Connection', T)
-    return list(I.call_repo(path, [Ref(conn)]).items())
+    from models_core import explode
+    return list(explode(I, I.call_repo(path, [Ref(conn)]).items()))
 
 # ---------------------------------------------------------------------------- comparing outcomes
 def items_eq(a, b):
